@@ -411,6 +411,9 @@ def check_basic(ctx, F, by_name, tag):
     okb = len(wa) == 1 and (m(Call(lambda x: x.startswith("std::slice::from_raw_parts"), Param(0), Call("std::mem::size_of")), bb.term_of_operand(wa[0][1]["args"][1])) or
                             m(Call(lambda x: x.startswith("std::slice::from_raw_parts"), Param(0), Call("std::mem::size_of_val", Param(0))), bb.term_of_operand(wa[0][1]["args"][1]))) \
         and core(bb.term_of_operand(wa[0][1]["args"][0]))[:2] == ("param", 1)
+    if okb:
+        tys = [x[3][0] if len(x) > 3 and x[3] else "?" for x in subterms(bb.term_of_operand(wa[0][1]["args"][1])) if x[0] == "call" and x[1] in ("std::mem::size_of", "std::mem::size_of_val")]
+        okb = bool(tys) and all(t_ in ("V", "Self") for t_ in tys)
     if not okb and not any(callee_name(t).startswith("std::slice::from_raw_parts") for _, t in bb.calls()):
         okb = None          # the bytes of the value are obtained some other way: a construction this rule does not read
     ctx.ob("C06.R2.basic.serializable-body", "V" + tag, where, okb, "formula", "body writes size_of::<Self>() bytes of self once")
@@ -424,6 +427,10 @@ def check_basic(ctx, F, by_name, tag):
         # the value returned is that local
         oks = [st for bi, si, st in lb.stmts() if st["s"] == "assign" and st["lhs"]["l"] == 0 and st["rv"]["r"] == "agg" and st["rv"].get("vname") == "Ok"]
         okl = okl and len(oks) == 1 and core(lb.term_of_operand(oks[0]["rv"]["ops"][0])) == env["v"]
+    if okl:
+        # ... of *this* type: size_of::<u64>() is the same number for the one-word types only
+        tys = [x[3][0] if len(x) > 3 and x[3] else "?" for x in subterms(lb.term_of_operand(re[0][1]["args"][1])) if x[0] == "call" and x[1] == "std::mem::size_of"]
+        okl = bool(tys) and all(t_ in ("V", "Self") for t_ in tys)
     ctx.ob("C06.R2.basic.serializable-load", "V" + tag, where, okl, "formula", "load reads size_of::<Self>() bytes into the value it returns")
     sb = f["size_in_elements"]
     ctx.ob("C06.R2.basic.serializable-size", "V" + tag, where, m(Call("serialize::Serializable::elements"), sb.term_of_local(0)), "formula", "size = %s" % tstr(sb.term_of_local(0)))
